@@ -182,6 +182,7 @@ func TestCheck(t *testing.T) {
 		// ---- first half, part 1: full body set, S1F1 W, all options
 		s1f1w := Header{1, 1, true}
 		reported := map[string]bool{}
+		sampled := map[string]bool{}
 		var nGT int64
 		runBody := func(h Header, class string, body secs2.Item) bool {
 			if !c.Next() {
@@ -229,7 +230,8 @@ func TestCheck(t *testing.T) {
 				c.Outcome(class + ":FAIL")
 			default:
 				c.Outcome(class + ":ok")
-				if c.WantSample() && class != "empty-body" && c.Shard < 8 && body.Size() > 0 {
+				if !sampled[class] && c.WantSample() && class != "empty-body" && body.Size() > 0 {
+					sampled[class] = true
 					msg, _ := hsms.NewDataMessage(h.S, h.F, h.W, 0, [4]byte{}, body)
 					txt, _ := encs[len(encs)-1].EncodeMessage(msg)
 					c.Sample(map[string]any{"body": SpecOf(body), "opts": opts[len(opts)-1].String(), "sml": txt})
